@@ -112,7 +112,10 @@ func cmdVerify(args []string) {
 				fmt.Println("NOTE:", funcKey(f), n)
 			}
 		}
-		for _, o := range fv.obls {
+ 		for _, o := range fv.obls {
+			if ct.hasMode("assumed") && o.Kind != "step" && o.Kind != "inv-init" && o.Kind != "inv-step" {
+				continue
+			}
 			if *kinds != "" && !strings.Contains(","+*kinds+",", ","+o.Kind+",") {
 				continue
 			}
